@@ -27,10 +27,10 @@ type simPushHandler struct {
 var simPush = &simPushHandler{in: make(chan *push.Receipt, 1<<16), ch: make(chan *push.ChannelReq, 1<<16)}
 
 func (h *simPushHandler) Init(json.RawMessage) (bool, error) { h.ready = true; return true, nil }
-func (h *simPushHandler) IsReady() bool                       { return h.ready }
-func (h *simPushHandler) Push() chan<- *push.Receipt          { return h.in }
-func (h *simPushHandler) Channel() chan<- *push.ChannelReq    { return h.ch }
-func (h *simPushHandler) Stop()                               { h.ready = false }
+func (h *simPushHandler) IsReady() bool                      { return h.ready }
+func (h *simPushHandler) Push() chan<- *push.Receipt         { return h.in }
+func (h *simPushHandler) Channel() chan<- *push.ChannelReq   { return h.ch }
+func (h *simPushHandler) Stop()                              { h.ready = false }
 
 // drain moves queued receipts into the recorded lists (called by the root at quiescence).
 func (h *simPushHandler) drain() {
@@ -55,11 +55,11 @@ func (h *simPushHandler) reset() {
 // ---- credential validator --------------------------------------------------------------------
 
 type credRequest struct {
-	User  t.Uid
-	Cred  string
-	Resp  string
-	Reset bool
-	Code  string
+	User   t.Uid
+	Cred   string
+	Resp   string
+	Reset  bool
+	Code   string
 	Scheme string
 }
 
@@ -123,7 +123,9 @@ func (v *simCredValidator) Check(user t.Uid, resp string) (string, error) {
 	return "", t.ErrCredentials
 }
 
-func (v *simCredValidator) Delete(user t.Uid) error { return store.Users.DelCred(user, simCredName, "") }
+func (v *simCredValidator) Delete(user t.Uid) error {
+	return store.Users.DelCred(user, simCredName, "")
+}
 func (v *simCredValidator) Remove(user t.Uid, value string) error {
 	return store.Users.DelCred(user, simCredName, value)
 }
